@@ -228,6 +228,29 @@ def _is_aug_target(fn_node: ast.AST, y: ast.Attribute) -> bool:
     return any(isinstance(a, ast.AugAssign) and a.target is y for a in ast.walk(fn_node))
 
 
+def drain_defaults_to_everything(model: Model, run: Run, rule: str = "D8-no-amount-means-everything") -> None:
+    """D8: `data_to_send()` without an amount hands out everything that is pending: the amount parameter defaults to None (the
+    "all" marker the body tests for).  A numeric default turns the call every example and test makes into "at most N": whatever
+    is queued beyond N stays in the session unless the caller knows to call again."""
+    drain = model.find_method(BASE, "data_to_send")
+    if drain is None or isinstance(drain.node, ast.Lambda):
+        raise AnalysisError("data_to_send not found")
+    a = drain.node.args
+    pos = [p_ for p_ in a.posonlyargs + a.args if p_.arg != "self"]
+    if not pos:
+        run.ob(rule, True, {"parameters": 0})
+        return
+    dfl = dict(zip([p_.arg for p_ in (a.posonlyargs + a.args)][len(a.posonlyargs + a.args) - len(a.defaults):], a.defaults))
+    first = pos[0].arg
+    d = dfl.get(first)
+    ok = isinstance(d, ast.Constant) and d.value is None
+    run.ob(rule, ok, {"parameter": first, "default": norm(d) if d is not None else None})
+    if not ok:
+        run.fail(Finding(rule, drain.qualname, f"{first}={norm(d) if d is not None else '<required>'}",
+                         f"data_to_send takes `{first}` with the default `{norm(d) if d is not None else 'none at all'}`, not None: a plain data_to_send() no longer drains the "
+                         "buffer, and a message longer than that stays queued behind its own beginning", model.loc(drain.module, drain.node)))
+
+
 def check(model: Model, run: Run) -> None:
     ex = extraction(model)
     run.explanation = ("who-may-write census of the outgoing buffer over the whole package plus a path enumeration of "
@@ -238,6 +261,7 @@ def check(model: Model, run: Run) -> None:
     from .c07 import exit_does_not_swallow
     exit_does_not_swallow(model, run)
     model.cls(BASE)
+    drain_defaults_to_everything(model, run)
     # ---- (a) writer census over the package ---------------------------------
     writers = []
     for fq, fi in model.functions.items():
